@@ -97,11 +97,12 @@ func fsPoint(fr *frame, op, path string) bool {
 	if sched != nil && sched.cur != nil {
 		th = sched.cur.id
 	}
-	vfs.ops = append(vfs.ops, fmt.Sprintf("p%d:%s(%s)", th, op, filepath.Base(path)))
-	vfs.order = append(vfs.order, th)
 	if sched != nil && len(sched.threads) > 1 {
 		sched.yield(nil)
 	}
+	// recorded when the operation actually executes (after the scheduling point)
+	vfs.ops = append(vfs.ops, fmt.Sprintf("p%d:%s(%s)", th, op, filepath.Base(path)))
+	vfs.order = append(vfs.order, th)
 	if vfs.crashOn && !vfs.crashed {
 		if eng.Choice("crash", 2) == 1 {
 			vfs.crashed = true
@@ -573,11 +574,11 @@ func init() {
 		if sched != nil && sched.cur != nil {
 			th = sched.cur.id
 		}
-		vfs.ops = append(vfs.ops, fmt.Sprintf("p%d:yield", th))
-		vfs.order = append(vfs.order, th)
 		if sched != nil && len(sched.threads) > 1 {
 			sched.yield(nil)
 		}
+		vfs.ops = append(vfs.ops, fmt.Sprintf("p%d:yield", th))
+		vfs.order = append(vfs.order, th)
 		return nil
 	}
 	intrinsics["verifFSTrace"] = func(fr *frame, a []value) value {
